@@ -9,6 +9,7 @@ import (
 	"github.com/matrix-org/gomatrixserverlib/spec"
 	"github.com/tidwall/gjson"
 	"github.com/tidwall/sjson"
+	"golang.org/x/crypto/ed25519"
 )
 
 type eventV3 struct {
@@ -39,6 +40,22 @@ func (e *eventV3) AuthEventIDs() []string {
 		return append([]string{createEventID}, e.AuthEvents...)
 	}
 	return []string{createEventID}
+}
+
+// SetUnsigned returns a copy of the event with the "unsigned" key set. The copy is an
+// eventV3 again: the embedded eventV2's method returns an *eventV2, whose RoomID() and
+// AuthEventIDs() do not know that the room ID derives from the create event.
+func (e *eventV3) SetUnsigned(unsigned interface{}) (PDU, error) {
+	res, err := e.eventV2.SetUnsigned(unsigned)
+	if err != nil {
+		return nil, err
+	}
+	return &eventV3{eventV2: *res.(*eventV2)}, nil
+}
+
+// Sign adds a signature to the event. The result is an eventV3 again (see SetUnsigned).
+func (e *eventV3) Sign(signingName string, keyID KeyID, privateKey ed25519.PrivateKey) PDU {
+	return &eventV3{eventV2: *e.eventV2.Sign(signingName, keyID, privateKey).(*eventV2)}
 }
 
 func newEventFromUntrustedJSONV3(eventJSON []byte, roomVersion IRoomVersion) (PDU, error) {
